@@ -59,6 +59,13 @@ def main():
     diffs = sorted(os.path.join(d, f) for d in dirs for f in os.listdir(d) if f.endswith(".diff"))
     if only:
         diffs = [d for d in diffs if any(os.path.basename(d).startswith(o) for o in only)]
+    # the unchanged tree must be silent first, otherwise every refactoring would be blamed
+    for pid in PIDS:
+        rc, o = sh([os.path.join(VERIF, "check"), pid, "--tier", "quick", "--no-evidence", "--outdir", tempfile.mkdtemp(prefix="benout_", dir="/tmp")], cwd=VERIF)
+        if rc:
+            print(f"check {pid} is not silent on the unchanged tree (rc={rc}); fix that first")
+            print("\n".join(l for l in o.splitlines() if "VIOLATION" in l or "ANALYSIS-ERROR" in l or l.startswith("  C"))[:1500])
+            return 2
     with ThreadPoolExecutor(6) as ex:
         rows = list(ex.map(one, diffs))
     sh(["git", "-C", "/repo", "worktree", "prune"])
